@@ -70,6 +70,11 @@ def jobs(tier, seed):
         for second in (['canon', 'cl', 'text'], ['canon', 'chunked1', 'text']):
             js.append(dict(items=[['canon', 'overrun', b], second], mode='overrun-first'))
             js.append(dict(items=[['canon', 'overrun_resp', b], second], mode='overrun-first'))
+    # the server falls silent in mid-response and the client's read timeout fires: whatever
+    # is archived for a completed exchange must still be everything the server sent
+    for it in (['canon', 'close', 'text'], ['canon', 'cl', 'binary'],
+               ['lf', 'chunked_ext', 'text'], ['canon', 'http10', 'gzip']):
+        js.append(dict(items=[it], mode='stall'))
     if seed:
         k = seed % len(js)
         js = js[k:] + js[:k]
@@ -104,6 +109,31 @@ def run_job(job):
             plans += [[c + d] for c in range(4096, total, 4096) for d in (-1, 0, 1)] + \
                 [list(range(4096, total, 4096)), list(range(1000, total, 1000))]
     seen = set()
+    if job['mode'] == 'stall':
+        for st in range(1, total):
+            case = dict(phases=[dict(rec=REC[0], items=items, cuts=[], stall_after=st)])
+            result = warcsuite.run_case(case)
+            res['evaluations'] += 1
+            res['transitions'] += 2
+            problems = [p for p in warcsuite.judge_c04(case, result)
+                        if 'a well-formed exchange failed' not in p]
+            done = sum(1 for e in result['exlog'] if e['completed'])
+            ok = 'stall completed=%d problems=%d' % (done, len(problems))
+            res['outcomes'][ok] = res['outcomes'].get(ok, 0) + 1
+            res['states'].add(h64((tag, 'stall', st)))
+            for p in problems:
+                cls = warcsuite.classify(p)
+                sig = 'C04:%s:%s:stall' % (cls, tag)
+                if sig in seen or len(res['violations']) >= 4:
+                    continue
+                seen.add(sig)
+                res['violations'].append(dict(
+                    violation='%s [%s, server silent after %d bytes, read timeout]' % (
+                        p, tag, st), signature=sig, case=case, judge='judge_c04',
+                    problem_class=cls))
+        res['distinct'].add(h64((tag, 'stall')))
+        res['samples'].append(dict(stream=tag, bytes=total, mode='stall at every byte'))
+        return res
     for ri, rec in enumerate(REC):
         for cuts in plans:
             if ri == 1 and len(cuts) not in (0, total - 1):
